@@ -9,7 +9,7 @@
 (* The generator aims at rules that are accepted by the parser and run; it does not try to be uniform.    *)
 EXTENDS RuleAst, Inventory
 
-H(seed, p) == LET h0 == ((seed % 65521) * 40503 + 12345) % 65521
+H(seed, p) == LET h0 == ((seed % 65521) * 32003 + 12345) % 65521
                   h1 == (h0 * 75 + 74) % 65537
                   h2 == (h1 + (p % 100003) * 131) % 65537
                   h3 == (h2 * 75 + 74) % 65537
